@@ -2509,8 +2509,10 @@ let session_new c =
     s_ob = (ob_new c.cf_tx); s_pid = (Npos XH); s_gen = N0; s_sp = false;
     s_srv = []; s_rt =
     (rt_new
-      (N.mul c.cf_keepalive_s (Npos (XO (XO (XO (XI (XO (XI (XI (XI (XI
-        XH)))))))))))) }
+      (N.mul
+        (N.modulo c.cf_keepalive_s (Npos (XO (XO (XO (XO (XO (XO (XO (XO (XO
+          (XO (XO (XO (XO (XO (XO (XO XH)))))))))))))))))) (Npos (XO (XO (XO
+        (XI (XO (XI (XI (XI (XI XH)))))))))))) }
 
 (** val set_rt : session -> runtime -> session **)
 
@@ -2921,8 +2923,11 @@ let connack_process s p now =
        else let local_quota = N.min mAX_RETAINED mAX_PENDING_RELEASE in
             let a0 = { ca_quota = local_quota; ca_maxquota = local_quota;
               ca_maxqos = None; ca_mps = None; ca_ka_ms =
-              (N.mul s.s_cfg.cf_keepalive_s (Npos (XO (XO (XO (XI (XO (XI (XI
-                (XI (XI XH))))))))))); ca_cid = None }
+              (N.mul
+                (N.modulo s.s_cfg.cf_keepalive_s (Npos (XO (XO (XO (XO (XO
+                  (XO (XO (XO (XO (XO (XO (XO (XO (XO (XO (XO
+                  XH)))))))))))))))))) (Npos (XO (XO (XO (XI (XO (XI (XI (XI
+                (XI XH))))))))))); ca_cid = None }
             in
             (match connack_props (props_iter_encoded props) local_quota a0 with
              | Some a ->
